@@ -22,8 +22,12 @@ def parseMFile (s : Sexp) : Option File := do
 
 def showItem (i : Item) : String := "[" ++ ",".intercalate i.comments ++ "]" ++ i.text
 
-def showOut (o : Out) : List (String × String) :=
-  [("header", o.header.getD "none"), ("pkg", o.pkg),
+/-- comment groups that the code attaches to a declaration although they are not its own -/
+def strays (fs : List File) : Nat :=
+  (fs.flatMap (fun f => (f.decls.filter (fun d => !d.isImport)).flatMap (fun d => (attach f d).filter (fun c => !own d c)))).length
+
+def showOut (o : Out) (orphans : Nat) : List (String × String) :=
+  [("header", o.header.getD "none"), ("pkg", o.pkg), ("orphans", toString orphans),
    ("imports", " ".intercalate (o.imports.map (fun i => i.name ++ i.path))),
    ("nitems", toString o.items.length)]
     ++ (o.items.zipIdx).map (fun (it, k) => (s!"item:{k}", showItem it))
@@ -34,11 +38,11 @@ def mergeCase (id : String) (payload : List Sexp) : List String :=
   | none => err id "bad-merge-case"
   | some fs =>
     let model := match merge fs with
-      | .ok o => showOut o
+      | .ok o => showOut o (strays fs)
       | .fatal => [("result", "fatal")]
       | .empty => [("result", "empty")]
     let spec := match specOut fs with
-      | some o => showOut o
+      | some o => showOut o 0
       | none => []
     both id model spec (region fs)
 
